@@ -1,7 +1,7 @@
 (* C01 — serialise -> parse round trip (Stage A of DESIGN 3.3: token level; the tokenizer enters as the instance-checked
    lexer contract "handler calls on render l = chunk l").  Statements only; proofs in Proofs/RoundTripProofs.v. *)
-From AHP Require Import Model.Base Model.Str Model.Attr Model.Dom Model.Serial Model.Parser Model.RoundTrip Gen.Tables
-     Proofs.DomProofs Proofs.ParserProofs Proofs.RoundTripProofs.
+From AHP Require Import Model.Base Model.Str Model.Attr Model.Dom Model.Serial Model.Parser Model.RoundTrip Model.Search Model.Index Gen.Tables
+     Proofs.DomProofs Proofs.ParserProofs Proofs.RoundTripProofs Proofs.CloneProofs Proofs.IndexedParserProofs Proofs.FixPointProofs.
 
 (* serialisation is exactly the rendering of the tree's token list, for every tree *)
 Theorem C01_render_factor : forall t, outer_html t = render (toks_of t).
@@ -24,6 +24,19 @@ Proof. exact root_roundtrip. Qed.
 Theorem C01_rebuilt_WF : forall ts1 ts2 s, feed PPlain ts1 ts2 = POk s ->
   match tree_of s with Some t => WF None the_doc t | None => True end.
 Proof. exact (feed_tree_WF PPlain). Qed.
+
+(* the string fixed point: a fresh parser fed the tree's own handler calls ends with a tree that serialises to the identical
+   string - for trees whose attribute mappings are constructor-built with non-degenerate style declarations (GoodTree) *)
+Theorem C01_fixed_point : forall t, InDom t -> GoodTree t ->
+  exists s root, prun PPlain pinit (retoks t) = POk s /\ tree_of s = Some root /\ pstk s = [] /\ outer_html root = outer_html t.
+Proof. exact roundtrip_fixed_point. Qed.
+(* attributes: what the tokenizer reads back from a rendered start tag rebuilds a mapping that renders identically *)
+Theorem C01_attributes_fixed_point : forall a, Built a -> start_attrs (sync (reattrs a)) = start_attrs (sync a).
+Proof. exact reattrs_faithful. Qed.
+(* every parsed document (any parser class, retry included) is such a tree, so a second round trip changes nothing *)
+Theorem C01_parsed_trees_qualify : forall cls ts1 ts2 s root, Forall tok_attrs_ok ts1 -> Forall tok_attrs_ok ts2 ->
+  feed cls ts1 ts2 = POk s -> tree_of s = Some root -> GoodTree root.
+Proof. exact parsed_good_tree. Qed.
 
 (* non-vacuity and the whole chain on a concrete tree with quoted, value-less, boolean, class and style attributes, references,
    a comment, a void element and nesting: parse(chunk(tokens)) re-serialises to the identical string *)
